@@ -182,7 +182,7 @@ def run(chk):
     ok_proof, info = vlib.proof_stage(chk, PROPS, MODULE, const_areas=("Refs",), pins_rel="pins/C08.v")
     c08_exe, mx = build(chk)
     rng = vlib.Rng(chk.seed * 1000003 + 8)
-    n_hist = 40 if chk.tier == "quick" else 420
+    n_hist = 40 if chk.tier == "quick" else 300
     cases = load_corpus()
     ncorpus = len(cases)
     for i in range(n_hist):
